@@ -1,13 +1,17 @@
-(** C04 - parsing preserves CEL precedence, associativity and grouping (partial).
-    Proved here: the operand order of && / || chains, the cancellation of prefix-operator runs,
-    and that macros expand around their receiver and arguments.  The general round trip
-    [compile (render tree) = tree] (fully and minimally parenthesised) is not yet a theorem; it
-    is evaluated on the implementation for every tree with up to 2 (thorough: 3) operators and
-    for random deeper trees by the correspondence run, which also compares the model's parser
-    with the real one on every rendered text. *)
+(** C04 - parsing preserves CEL precedence, associativity and grouping.
+    Proved here: the round trip [parse (render tree) = tree] for every tree of the operator
+    grammar (identifiers, prefix runs of any length, * / %, + -, the seven relations, && / ||
+    chains of any length, ?:, explicit parentheses) rendered with minimal parentheses - at token
+    level, for every sufficient fuel; the operand order of && / || chains; the cancellation of
+    prefix runs; that macros expand around their receiver and arguments.  Partial in this: the
+    postfix forms (select, index, calls), literals and collection literals are outside the
+    round-trip theorem and are covered by the correspondence run (every tree with up to 2
+    (thorough: 3) operators, random deeper ones, fully and minimally parenthesised), which also
+    checks on every operator tree that the real lexer's tokens are the rendering [raw]. *)
 From Coq Require Import String Ascii.
 From Cel.Model Require Import Parser.
-From Cel.Proofs Require Import PrecedenceProofs.
+From Cel.Model Require Import Surface.
+From Cel.Proofs Require Import PrecedenceProofs ParserRoundtrip.
 
 (** Chains of && / || keep their operands in source order: for every number of operands the
     tree built for t0 op t1 op ... tn ([logic_tree], applied by the parser's chain loops to the
@@ -75,7 +79,21 @@ Proof. split; vm_compute; reflexivity. Qed.
 Example C04_ex_even : compile $"!!a" = CExpr (EIdent $"a") /\ compile $"---a" = CExpr (ECall $"-_" None [EIdent $"a"]).
 Proof. split; vm_compute; reflexivity. Qed.
 
+(** Rendering then parsing gives the tree back: precedence, left associativity, balanced
+    logical chains and grouping, for trees of any size. *)
+Theorem C04_roundtrip : forall t, wf_st t ->
+  exists n, forall f, (n <= f)%nat -> p_expr f (raw t) = POk (ast t) [].
+Proof. exact parse_roundtrip. Qed.
+
+(** a + b * c - d == e && !f || g ? h : i : the tree the table prescribes, and its tokens *)
+Example C04_ex_roundtrip :
+  let t := SCond (SOr (SAnd (SRel TEq (SAdd TMinus (SAdd TPlus (SId $"a") (SMul TStar (SId $"b") (SId $"c"))) (SId $"d")) (SId $"e"))
+                            [SNot 0 (SId $"f")]) [SId $"g"]) (SId $"h") (SId $"i") in
+  wf_st t /\ length (raw t) = 18%nat /\ parse_tokens (raw t) = CExpr (ast t).
+Proof. vm_compute. repeat split; discriminate. Qed.
+
 Print Assumptions C04_chain_order.
 Print Assumptions C04_chain_loops.
 Print Assumptions C04_prefix_parity.
 Print Assumptions C04_macro_around.
+Print Assumptions C04_roundtrip.
